@@ -80,3 +80,82 @@ M("c01-header-name-split", "C01", "V",
   ("generator/parameters.go", "out.FieldName = Title(s.Name)", "out.FieldName = PublicFieldName(s.Name)"))
 M("c01-preserve-wrap-message", "C01", "S",
   ("goag.go", "return fmt.Errorf(\"to bytes: %w\", err)", "return fmt.Errorf(\"render: %w\", err)"))
+
+# ------------------------------------------------------------------ S3 checks (template / generator edits)
+RT = "generator/file_router.gotmpl"
+HT = "generator/file_handler.gotmpl"
+CT = "generator/file_components.gotmpl"
+CL = "generator/file_client.gotmpl"
+PT = "generator/primitive.gotmpl"
+M("c03-drop-slash-guard", "C03", "V",
+  (RT, "\t{{- end }}\n\n\tif !strings.HasPrefix(path, \"/\") {\n\t\treturn nil, \"\", false\n\t}\n\n", "\t{{- end }}\n\n"))
+M("c03-untrim-basepath", "C03", "V",
+  ("goag.go", "\tbasePath = strings.TrimRight(basePath, \"/\")\n", ""))
+M("c03-no-backtrack", "C03", "V",
+  (RT, "\t\th, out, hasPath := rt.route{{.Name}}(path, method)\n\t\tif h != nil {\n\t\t\treturn h, out, hasPath\n\t\t}\n", "\t\treturn rt.route{{.Name}}(path, method)\n"))
+M("c03-leaf-wrong-template", "C03", "V",
+  (RT, "\t\t\t\treturn h, \"{{.PathSpec}}\", true\n\t\t\t\t\t{{- end }}\n\t\t\t\t{{- end }}\n\t\t\t}\n\t\t\t{{end -}}", "\t\t\t\treturn h, \"{{$h.Prefix}}\", true\n\t\t\t\t\t{{- end }}\n\t\t\t\t{{- end }}\n\t\t\t}\n\t\t\t{{end -}}"))
+M("c03-preserve-rename-local", "C03", "S",
+  (RT, "\th, path, hasPath := rt.route(path, r.Method)\n\tif h == nil {\n\t\th = rt.NotFoundHandler\n\t\tif h == nil {\n\t\t\th = http.NotFoundHandler()\n\t\t}\n\n\t\thasPath = false\n\t}\n\n\tif hasPath {\n\t\tr = r.WithContext(context.WithValue(r.Context(), pathKey{}, path))",
+   "\th, tmpl, hasPath := rt.route(path, r.Method)\n\tif h == nil {\n\t\th = rt.NotFoundHandler\n\t\tif h == nil {\n\t\t\th = http.NotFoundHandler()\n\t\t}\n\n\t\thasPath = false\n\t}\n\n\tif hasPath {\n\t\tr = r.WithContext(context.WithValue(r.Context(), pathKey{}, tmpl))"))
+M("c16-forward-loop", "C16", "V",
+  (RT, "\t\tfor i := len(rt.Middlewares) - 1; i >= 0; i-- {\n\t\t\th = rt.Middlewares[i](h)\n\t\t}", "\t\tfor i := 0; i < len(rt.Middlewares); i++ {\n\t\t\th = rt.Middlewares[i](h)\n\t\t}"))
+M("c16-cors-leaf-haspath-true", "C16", "V",
+  (RT, "\t\t\t\th := rt.CORSHandler([]string{ {{ range $i, $_ := .CORSMethods }}{{ if $i }}, {{ end }}\"{{ . }}\"{{ end }} }, []string{ {{ range $i, $_ := .CORSHeaders }}{{ if $i }}, {{ end }}\"{{ . }}\"{{ end }} })\n\t\t\t\treturn h, \"\", false\n\t\t\t\t\t{{- else }}\n\t\t\tcase http.Method{{ .Method }}:",
+   "\t\t\t\th := rt.CORSHandler([]string{ {{ range $i, $_ := .CORSMethods }}{{ if $i }}, {{ end }}\"{{ . }}\"{{ end }} }, []string{ {{ range $i, $_ := .CORSHeaders }}{{ if $i }}, {{ end }}\"{{ . }}\"{{ end }} })\n\t\t\t\treturn h, \"\", true\n\t\t\t\t\t{{- else }}\n\t\t\tcase http.Method{{ .Method }}:"))
+M("c11-revert-jwt-per-pathitem", "C11", "V",
+  ("generator/file_router.go", "\t\t\t\t\top.JWT = true\n", "\t\t\t\t\tfor i := range p.Operations { p.Operations[i].JWT = true }\n\t\t\t\t\top.JWT = true\n"))
+M("c11-nil-auth-accepts", "C11", "V",
+  (RT, "\t\t\t\tif fn == nil {\n\t\t\t\t\tcontinue\n\t\t\t\t}\n", "\t\t\t\tif fn == nil {\n\t\t\t\t\tnext.ServeHTTP(w, r)\n\t\t\t\t\treturn\n\t\t\t\t}\n"))
+M("c11-original-request-passed", "C11", "V",
+  (RT, "next.ServeHTTP(w, authReq)", "_ = authReq\n\t\t\t\t\tnext.ServeHTTP(w, r)"))
+M("c17-methods-not-deduped", "C17", "V",
+  ("generator/file_router.go", "\t\t\t\tmethods = append(methods, string(o.Method.HTTP))\n", "\t\t\t\tmethods = append(methods, string(o.Method.HTTP), string(o.Method.HTTP))\n"))
+M("c17-drop-security-headers", "C17", "V",
+  ("generator/file_router.go", "\t\t\t\t\tif sec.Scheme.Type == specification.SecuritySchemeTypeApiKey && sec.Scheme.In == \"header\" {\n\t\t\t\t\t\tkey := http.CanonicalHeaderKey(sec.Scheme.Name)\n", "\t\t\t\t\tif false && sec.Scheme.Type == specification.SecuritySchemeTypeApiKey && sec.Scheme.In == \"header\" {\n\t\t\t\t\t\tkey := http.CanonicalHeaderKey(sec.Scheme.Name)\n"))
+M("c13-spec-after-route", "C13", "V",
+  (RT, "\tif rt.SpecFileHandler != nil && path == \"{{.BasePath}}/{{.SpecFilename}}\" {\n\t\trt.SpecFileHandler.ServeHTTP(rw, r)\n\t\treturn\n\t}\n\n\th, path, hasPath := rt.route(path, r.Method)\n",
+   "\th, path, hasPath := rt.route(path, r.Method)\n\tif h == nil && rt.SpecFileHandler != nil && r.URL.Path == \"{{.BasePath}}/{{.SpecFilename}}\" {\n\t\trt.SpecFileHandler.ServeHTTP(rw, r)\n\t\treturn\n\t}\n"))
+M("c14-hs0-without-guard", "C14", "V",
+  (RT, "\ths := r.Header.Values(\"Authorization\")\n\tif len(hs) == 0 {\n\t\treturn nil, false\n\t}\n\ttoken = hs[0]", "\ths := r.Header.Values(\"Authorization\")\n\ttoken = hs[0]"))
+M("c14-double-writeheader", "C14", "V",
+  (CT, "\tw.WriteHeader({{if .IsDefault}}r.Code{{ else if .Status }}{{ .Status }}{{else}}code{{end}})\n\t{{- if .IsBody}}", "\tw.WriteHeader({{if .IsDefault}}r.Code{{ else if .Status }}{{ .Status }}{{else}}code{{end}})\n\t{{- if .IsBody}}\n\tw.WriteHeader(200)"))
+M("c20-request-counter", "C20", "V",
+  (RT, "func (rt *API) ServeHTTP(rw http.ResponseWriter, r *http.Request) {\n\tpath := r.URL.Path\n", "var requestCount int\n\nfunc (rt *API) ServeHTTP(rw http.ResponseWriter, r *http.Request) {\n\trequestCount++\n\tpath := r.URL.Path\n"))
+M("c20-lazy-notfound", "C20", "V",
+  (RT, "\t\th = rt.NotFoundHandler\n\t\tif h == nil {\n\t\t\th = http.NotFoundHandler()\n\t\t}\n", "\t\tif rt.NotFoundHandler == nil {\n\t\t\trt.NotFoundHandler = http.NotFoundHandler()\n\t\t}\n\t\th = rt.NotFoundHandler\n"))
+M("c04-drop-required-check", "C04", "V",
+  (HT, "            {{- if .Required }}\n\t\t\tif !ok {\n                return zero, fmt.Errorf(\"query parameter '{{.ParameterName}}': is required\")\n            }\n            {{- end }}\n", ""))
+M("c04-silent-multi", "C04", "V",
+  (PT, "} else {\n\treturn {{ .MkErr.New \"multiple values found: single value expected\" }}\n}", "}"))
+M("c04-wrong-bitsize", "C04", "V",
+  (PT, "vInt64, err := strconv.ParseInt({{ .From }}, 10, {{ .BitSize }})", "vInt64, err := strconv.ParseInt({{ .From }}, 10, 64)"))
+M("c04-preserve-error-wording", "C04", "S",
+  (PT, "multiple values found: single value expected", "expected a single value, found several"))
+M("c05-drop-empty-check", "C05", "V",
+  (HT, "\tif len(vPath) == 0 {\n\t\treturn {{.Error.New \"required\"}}\n\t}\n", ""))
+M("c05-offbyone-strip", "C05", "V",
+  (HT, "p = p[{{len .Prefix}}:] // \"{{.Prefix}}\"", "p = p[{{len .FullPath | len}}:] // \"{{.Prefix}}\""))
+M("c02-export-marker-method", "C02", "V",
+  (HT, "type {{ $responseWriter }} interface {\n\twrite{{ .Name }}(http.ResponseWriter)\n}", "type {{ $responseWriter }} interface {\n\tWrite(http.ResponseWriter)\n}"))
+M("c02-drop-content-type", "C02", "V",
+  (CT, "\t{{- if .ContentType }}\n\tw.Header().Set(\"Content-Type\", \"{{ .ContentType }}\")\n\t{{- end }}\n", ""))
+M("c10-code-not-propagated", "C10", "V",
+  (CL, "{{- if eq .StatusCode \"default\" }}\n\tresponse.Code = resp.StatusCode\n{{ end }}", ""))
+M("c10-optional-header-required", "C10", "V",
+  (CL, "{{- if .Required }}\n} else {\n\treturn nil, fmt.Errorf(\"response header '{{ .Key }}' is required\")\n{{- end }}", "} else {\n\treturn nil, fmt.Errorf(\"response header '{{ .Key }}' is required\")"))
+M("c09-float-bitsize-mismatch", "C09", "V",
+  (PT, "{{ define \"FloatX_RenderToStringInline\" }}strconv.FormatFloat(float64({{ .From }}), 'e', -1, {{ .BitSize }}){{ end }}", "{{ define \"FloatX_RenderToStringInline\" }}strconv.FormatFloat(float64({{ .From }}), 'e', -1, 64){{ end }}"))
+M("c09-preserve-f-format", "C09", "S",
+  (PT, "{{ define \"Float64_RenderToStringInline\" }}strconv.FormatFloat({{ .From }}, 'e', -1, 64){{ end }}", "{{ define \"Float64_RenderToStringInline\" }}strconv.FormatFloat({{ .From }}, 'f', -1, 64){{ end }}"))
+M("c06-revert-commawriter", "C06", "V",
+  (CT, "\t\t\t\tcw := &commaWriter{w: out, comma: comma}\n\t\t\t\tmErr := {{ $from }}.marshalJSONInnerBody(cw)\n\t\t\t\tif mErr != nil {\n\t\t\t\t\terr = mErr\n\t\t\t\t}\n\t\t\t\tif cw.written {\n\t\t\t\t\tcomma = \",\"\n\t\t\t\t}\n\t\t\t}\n",
+   "\t\t\t\tmErr := {{ $from }}.marshalJSONInnerBody(out)\n\t\t\t\tif mErr != nil {\n\t\t\t\t\terr = mErr\n\t\t\t\t}\n\t\t\t}\n\t\t\tcomma = \",\"\n"))
+M("c06-reader-forgets-isset", "C06", "V",
+  (CT, "\t\t\t\tc.{{ .Name }}.IsSet = true\n", ""))
+M("c07-key-from-go-name", "C07", "V",
+  ("generator/types.go", "\t\tJSONTag:     name,\n", "\t\tJSONTag:     PublicFieldName(name),\n"))
+M("c08-missing-key-accepted", "C08", "V",
+  (CT, "\t\t\t{{- if .Required }}\n\t\t\t\t} else {\n\t\t\t\t\treturn fmt.Errorf(\"'{{ .JSONTag }}' key is missing\")\n\t\t\t{{- end }}\n", ""))
+M("c18-revert-requestbody-alias", "C18", "V",
+  (CT, "type {{ .Name }} = {{ call .GoTypeFn }}", "type {{ .Name }} {{ call .GoTypeFn }}"))
